@@ -42,7 +42,15 @@ impl FromStr for Sorter {
         let mut reader = from_string(&source);
         reader.eat_whitespace()?;
         let sort_by = read_getter(&mut reader)?;
-        let direction = read_to_eof(&mut reader)?.to_uppercase();
+        let rest = read_to_eof(&mut reader)?;
+        let direction = match rest.strip_prefix('=') {
+            Some(direction) => direction,
+            None if rest.is_empty() || rest.starts_with(char::is_whitespace) => rest.as_str(),
+            None => {
+                return Err(SorterParserError::UnknownOrder(rest));
+            }
+        };
+        let direction = direction.trim().to_uppercase();
         let direction = match direction.as_str() {
             "" | "ASC" => Direction::Asc,
             "DESC" => Direction::Desc,
@@ -57,14 +65,13 @@ impl FromStr for Sorter {
 
 fn read_to_eof<R: Read>(r: &mut Reader<R>) -> Result<String, SelectionParseError> {
     let mut chars = Vec::new();
-    loop {
-        if let Some(ch) = r.next()? {
-            chars.push(ch)
-        } else {
-            let str = String::from_utf8(chars)?;
-            return Ok(str.trim().to_string());
-        }
+    // The byte that ended the selection was not consumed yet.
+    let mut current = r.peek()?;
+    while let Some(ch) = current {
+        chars.push(ch);
+        current = r.next()?;
     }
+    Ok(String::from_utf8(chars)?)
 }
 
 impl Sorter {
